@@ -171,6 +171,14 @@ def coerce_int(cls: Const(CScript), other: Int) -> Bytes:
                           ite(other == -1, b'\x4f', push_enc(num_enc(other))))))
 
 
+@contract('bitcoin.core.script:CScript._CScript__coerce_instance', name='coerce_bytes', prop=P)
+def coerce_bytes(cls: Const(CScript), other: Bytes) -> Bytes:
+    """a byte string - of ANY content, a single byte 1..16 or 0x81 included - becomes the shortest push of exactly
+    those bytes (data stays data: it is never turned into a small-integer opcode)"""
+    requires(len(other) < 2**32)
+    ensures(result == push_enc(other))
+
+
 from pyvc import replay as _replay
 _replay.GENERATORS["bn2vch_num_enc"] = lambda rng: {'v': rng.choice([0, 1, -1, 127, 128, -127, -128, 255, 256, -255, -256, 32767, 32768,
                                                                       -32768, 2**31 - 1, 2**31, -2**31, 2**63 - 1, -2**63 + 1,
